@@ -52,6 +52,9 @@ struct mcs_state {
   uint64_t join_old, succ_after;
   /* recorded loads */
   uint64_t last_l, last_mine, last_foreign;
+  uint64_t last_foreign_addr;   /* address of the foreign node loaded last */
+  uint64_t join_node_last;      /* last value loaded from the node of the group this shared request joined */
+  _Bool have_join_node;
   _Bool have_l, have_mine, have_foreign, acq_l, acq_mine, acq_foreign;
   _Bool mine_szero_seen, mine_szero_acq; /* first load of my node that showed no shared predecessor left, and whether it acquired */
   uint64_t n_atomic;
@@ -179,6 +182,11 @@ static inline void mcs_env(atomic_u64 *a, int slot)
       /* ASSUME[queue invariant Q, local part]: once my group has a successor my grant is recorded in the successor's flag field */
       __CPROVER_assume(mcs_my_flag_present(w));
     }
+    if(a != &the_lock.lock_ && slot >= 0)
+    {
+      /* ASSUME[queue invariant Q, local part]: a node never links to itself, and a link once written is never changed */
+      __CPROVER_assume(M_PTR(w) != MCS.addr[slot] && (M_PTR(a->v) == 0 || M_PTR(w) == M_PTR(a->v)));
+    }
     a->v = w;
   }
 }
@@ -201,7 +209,12 @@ static inline uint64_t atomic_u64_load(atomic_u64 *a, int mo)
     MCS.last_mine = v; MCS.have_mine = 1; MCS.acq_mine = VERIF_IS_ACQUIRE(mo);
     if(M_S(v) == 0 && !MCS.mine_szero_seen) { MCS.mine_szero_seen = 1; MCS.mine_szero_acq = VERIF_IS_ACQUIRE(mo); }
   }
-  else { MCS.last_foreign = v; MCS.have_foreign = 1; MCS.acq_foreign = VERIF_IS_ACQUIRE(mo); }
+  else
+  {
+    MCS.last_foreign = v; MCS.have_foreign = 1; MCS.acq_foreign = VERIF_IS_ACQUIRE(mo);
+    MCS.last_foreign_addr = slot >= 0 ? MCS.addr[slot] : 0;
+    if(MCS.fn == MCS_LOCKS && MCS.joins > 0 && slot >= 0 && MCS.addr[slot] == M_PTR(MCS.join_old)) { MCS.join_node_last = v; MCS.have_join_node = 1; }
+  }
   return v;
 }
 
@@ -355,7 +368,7 @@ static inline void mcs_setup(int fn)
   MCS.have_node = 0; MCS.published = 0; MCS.flags_installed = 0; MCS.linked = 0;
   MCS.recycled = 0; MCS.recycled_ptr = 0; MCS.cache_frees = 0;
   MCS.l_handoffs = 0; MCS.n_handoffs = 0; MCS.convs = 0; MCS.joins = 0; MCS.nulled = 0;
-  MCS.have_l = 0; MCS.have_mine = 0; MCS.have_foreign = 0; MCS.mine_szero_seen = 0; MCS.mine_szero_acq = 0;
+  MCS.have_l = 0; MCS.have_mine = 0; MCS.have_foreign = 0; MCS.have_join_node = 0; MCS.mine_szero_seen = 0; MCS.mine_szero_acq = 0;
   MCS.n_atomic = 0;
   the_lock.lock_.v = nondet_u64();
   mcs_nodes[0].lock_.v = nondet_u64();
